@@ -380,6 +380,12 @@ def run(ctx):
         check_export(ctx, ctx.fb(cfg), cfg)
     n = len([r for r in ctx.results if r.rule.startswith("R07")])
     ctx.floor("convention-instances", n, 22)
+    # R07-6 (shared with C06 R06-11): the persistent tree's proof is read back from the store: every record handed to the key-value adapter is stored, whole, and read back as stored
+    from . import c06 as _c06s
+    _subs = type(ctx)(ctx.pid, ctx.tier)
+    _c06s.check_store_adapter(_subs, ctx.fb("default"))
+    for r in _subs.results:
+        (ctx.ok if r.status == "ok" else ctx.fail)("R07-6", r.instance, r.reason, r.loc)
     # R07-5 (shared with C06 R06-3): a proof recomputes the *current* root only if every write recomputed all ancestors of what it
     # changed: the parent-recomputation shape of the two in-memory back ends (unconditional climb to the root)
     from . import c06
